@@ -151,7 +151,9 @@ Send(e) ==
             /\ (e.res # "ok" => Check(e.emitted = <<>>, "C10", "RefusedNoWire"))
             /\ ((e.res = "ok" /\ r.res = "ok") =>
                   /\ (e.ev = "send" => Check(e.ret = r.ret, IF role = "client" THEN "C09" ELSE "C10", "ReturnedId"))
-                  /\ Check(EmittedOK(e.emitted, r.emit[1].k, IF e.ev = "unbind" THEN 0 - 1 ELSE r.ret),
+                  \* custom: the session has application-registered credential / control / filter types, whose encodings are
+                  \* outside the RFC 4511 reference decoder (they are C19's business); only traces of the repository's tests set it
+                  /\ Check(("custom" \in DOMAIN e /\ e.custom) \/ EmittedOK(e.emitted, r.emit[1].k, IF e.ev = "unbind" THEN 0 - 1 ELSE r.ret),
                            IF role = "client" THEN "C09" ELSE "C10", "EmittedMessage")
                   /\ Check(StateMatches(e, r.post), "C08", "StateAfterCall"))
             /\ ((e.res # "ok" /\ r.res # "ok") => Check(StateMatches(e, x) \/ (role = "server" /\ x.st = "BEFORE_OPEN" /\ e.state = "OPENED"), "C08", "RefusedNoEffect"))
